@@ -48,6 +48,8 @@ fn fam_size(j: u8, k: usize) -> usize {
 
 #[derive(Clone, Debug, Serialize, Deserialize, PartialEq)]
 pub enum ServerScheme {
+    /// the built-in default scheme (what a server without a configured scheme runs)
+    Builtin,
     /// a member of the scheme family
     Fam(u8),
     /// unparsable: 0 = no stop, 1 = non-numeric stop, 2 = binary
@@ -57,6 +59,7 @@ pub enum ServerScheme {
 impl ServerScheme {
     fn bytes(&self) -> Vec<u8> {
         match self {
+            ServerScheme::Builtin => anytls_rs::padding::DEFAULT_PADDING_SCHEME.as_bytes().to_vec(),
             ServerScheme::Fam(j) => fam_scheme(*j).into_bytes(),
             ServerScheme::Bad(0) => b"1=100-200\n2=300-400".to_vec(),
             ServerScheme::Bad(1) => b"stop=eight\n1=100-200".to_vec(),
@@ -198,7 +201,10 @@ fn packets(frames: &[(u8, u32, usize)]) -> Vec<(usize, bool, bool)> {
         let mut starts = false;
         let mut is_write = false;
         match *cmd {
-            rc::SETTINGS | rc::HEART_REQ => starts = true,
+            rc::SETTINGS => starts = true,
+            // until the destination (first data frame) has gone out the session is still buffering:
+            // a keep-alive request issued that early rides in packet 1 together with settings and SYN
+            rc::HEART_REQ => starts = psh_seen >= 1,
             rc::PSH => {
                 psh_seen += 1;
                 if psh_seen >= 2 {
@@ -292,9 +298,10 @@ pub fn judge(case: &PushCase, out: &ChildOut, cx: &CaseCtx) -> Result<(bool, boo
         // packet 1 is shaped by the scheme in use at session start; packets >= 2 by the pushed one (if parsable)
         let after = match (push_expected, sscheme) {
             (true, ServerScheme::Fam(j)) => Cur::Fam(*j),
+            (true, ServerScheme::Builtin) => Cur::Default,
             _ => cur.clone(),
         };
-        if push_expected && matches!(sscheme, ServerScheme::Fam(_)) {
+        if push_expected && matches!(sscheme, ServerScheme::Fam(_) | ServerScheme::Builtin) {
             pushes += 1;
             if case.default_used {
                 nt_push_after_default = true;
@@ -361,7 +368,7 @@ impl Family for PushFam {
         "push"
     }
     fn strategy(&self, _tier: Tier) -> BoxedStrategy<PushCase> {
-        let ss = prop_oneof![5 => (0u8..4).prop_map(ServerScheme::Fam), 1 => (0u8..3).prop_map(ServerScheme::Bad)];
+        let ss = prop_oneof![5 => (0u8..4).prop_map(ServerScheme::Fam), 1 => Just(ServerScheme::Builtin), 1 => (0u8..3).prop_map(ServerScheme::Bad)];
         (any::<bool>(), 0u8..4, proptest::collection::vec((ss, 1u8..5), 1..=4)).prop_map(|(default_used, client_scheme, sessions)| PushCase { default_used, client_scheme, sessions }).boxed()
     }
     fn fixed_cases(&self, _tier: Tier) -> Vec<PushCase> {
@@ -374,6 +381,8 @@ impl Family for PushFam {
             PushCase { default_used: true, client_scheme: 0, sessions: vec![(ServerScheme::Fam(1), 3), (ServerScheme::Fam(1), 2)] },
             // unparsable pushes
             PushCase { default_used: false, client_scheme: 3, sessions: vec![(ServerScheme::Bad(0), 2), (ServerScheme::Bad(1), 2), (ServerScheme::Bad(2), 2)] },
+            // a client with its own scheme against a server that runs the built-in one, and back
+            PushCase { default_used: false, client_scheme: 2, sessions: vec![(ServerScheme::Builtin, 3), (ServerScheme::Builtin, 2), (ServerScheme::Fam(1), 2), (ServerScheme::Builtin, 2)] },
         ]
     }
     fn case_budget_s(&self) -> u64 {
